@@ -104,6 +104,23 @@ def run(ctx):
     for B in five:
         for merge in (False, True):
             extra.append({"B": [list(r) for r in B], "nl": max([x for r in B for x in r] + [0]) + 1, "merge": merge})
+    # larger incidences with interval structure (labels living in runs of neighbouring chunks, runs overlapping partially):
+    # chains of containment >= 0.75 in which a label merged into an earlier cohort precedes a partially contained one
+    def interval_incidence(nch, nl):
+        B = [set() for _ in range(nch)]
+        for lab in range(nl):
+            for _ in range(1 if ctx.rng.random() < 0.7 else 2):
+                ln = ctx.rng.choice([2, 2, 3, 4, 4, 5])
+                st = ctx.rng.randrange(0, nch - 1)
+                for c in range(st, min(nch, st + ln)):
+                    B[c].add(lab)
+        return [sorted(b) for b in B]
+
+    for _ in range(4000 if q else 60000):
+        nch, nl = ctx.rng.choice([(8, 5), (9, 5), (10, 6), (10, 5), (7, 6)])
+        B = interval_incidence(nch, nl)
+        for merge in (False, True):
+            extra.append({"B": B, "nl": nl, "merge": merge})
     pads = [dict(c, pad=1) for c in gen.pick(ctx.rng, cases, 3000 if q else 30000)]
     grids = [dict(c, grid=[2, 2]) for c in cases if len(c["B"]) == 4][:: 3 if q else 1]
     allcases = cases + extra + pads + grids
